@@ -36,12 +36,6 @@ __CPROVER_assigns();
 
 #include "lib/util/src/hash_table.c"
 
-/* --dfcc turns the body-less __CPROVER_cover into a failing "undefined
- * function" obligation and cbmc --cover no longer sees it; reachability of
- * the branches is demonstrated by the self-test mutants instead */
-#undef VERIF_COVER
-#define VERIF_COVER(c) ((void)0)
-
 #ifndef SI
 #define SI 0
 #endif
